@@ -269,6 +269,8 @@ def check_cos_scale_free(run, A):
 
 def check(run):
     A = run.A
+    from ..opt import check_block_partitions
+    check_block_partitions(run, A, ('pb_bss.permutation_alignment',))
     run.explanation = (
         'Optimality clause: the brute-force branch of _mapping_from_score_matrix is a complete strict arg-max over permutations(range(K)) of sum_k score[k, perm[k]] (same rule '
         'instance as C14). Inversion clause, structural part: all three score metrics are oriented rows = reference / columns = estimate, the assignment maps row -> column, '
